@@ -126,6 +126,12 @@ def _check(pid, tier, verif_seed, repo, nlanes, replay=None, runs=None, wall_cap
     if replay:
         with open(replay) as fh:
             doc = json.load(fh)
+        if doc.get("python_optimize") and not sys.flags.optimize:
+            # the violation was found by the optimised-interpreter pass: replay it the same way
+            import subprocess
+            q = subprocess.run([sys.executable, "-O", "-W", "ignore", os.path.abspath(__file__), pid, "--repo", repo, "--replay", replay],
+                               env=dict(os.environ, VERIF_NO_OPT_PASS="1"))
+            return q.returncode
         res = runner.exec_plan(prop, tier, doc["plan"], timeout=cfg.get("timeout", 120), want_tail=True)
         say("replay outcome=%s kind=%s key=%s event=%s digest=%s" % (
             res.get("outcome"), res.get("kind"), res.get("key"), res.get("event"), res.get("digest")))
@@ -262,7 +268,7 @@ def _check(pid, tier, verif_seed, repo, nlanes, replay=None, runs=None, wall_cap
                "digest": mres.get("digest"), "event_tail": mres.get("tail"),
                "original": {"kind": v.get("kind"), "message": v.get("msg"), "event": v.get("event"),
                             "digest": v.get("digest")},
-               "minimisation_executions": nexec, "repo": ident,
+               "minimisation_executions": nexec, "repo": ident, "python_optimize": int(sys.flags.optimize),
                "replay_cmd": "./check %s --replay %s" % (pid, replay_file)}
         with open(replay_file, "w") as fh:
             json.dump(doc, fh, indent=1, sort_keys=True)
@@ -270,6 +276,33 @@ def _check(pid, tier, verif_seed, repo, nlanes, replay=None, runs=None, wall_cap
             mres.get("kind"), mres.get("key"), mres.get("event"), mres.get("msg")))
         lines.append("VIOLATION property=%s replay=%s" % (pid, replay_file))
         rc = 1 if rc != 3 else 3
+
+    # second pass under `python -O` (asserts stripped, __debug__ False): validation written with assert,
+    # or anything else that behaves differently in an optimised interpreter, shows only there
+    opt_pass = None
+    if rc == 0 and not replay and not os.environ.get("VERIF_NO_OPT_PASS") and not sys.flags.optimize:
+        import subprocess
+        n_opt = max(40, nruns // 12)
+        env = dict(os.environ, VERIF_SEED=str(verif_seed), VERIF_NO_OPT_PASS="1")
+        cmd = [sys.executable, "-O", "-W", "ignore", os.path.abspath(__file__), pid, "--tier", tier, "--repo", repo, "--runs", str(n_opt),
+               "--no-evidence", "--lanes", str(nlanes), "--wall-cap", str(max(30, int((cfg.get("wall_cap") or 120) / 6)))]
+        try:
+            q = subprocess.run(cmd, env=env, capture_output=True, text=True, timeout=(cfg.get("wall_cap") or 120) + 120)
+            vio = [l for l in q.stdout.splitlines() if l.startswith("VIOLATION ")]
+            detail = [l for l in q.stdout.splitlines() if l.startswith("violation ")]
+            opt_pass = {"runs": n_opt, "exit": q.returncode}
+            if q.returncode == 1 and vio:
+                lines.append("under `python -O`: " + (detail[0] if detail else ""))
+                lines.append(vio[0])
+                rc = 1
+                violations.append({"tag": "opt", "outcome": "VIOLATION"})
+            elif q.returncode not in (0, 1):
+                harness_l = [l for l in q.stdout.splitlines() if l.startswith("HARNESS-ERROR")]
+                lines.append("HARNESS-ERROR property=%s optimised-interpreter pass failed (exit %d): %s" % (pid, q.returncode, (harness_l[0] if harness_l else q.stderr[-300:])))
+                rc = 3
+        except subprocess.TimeoutExpired:
+            lines.append("HARNESS-ERROR property=%s optimised-interpreter pass timed out" % pid)
+            rc = 3
 
     known_entries = [e for e in runner.load_known(pid) if e.get("status") == "open"]
     for e in known_entries:
@@ -310,6 +343,7 @@ def _check(pid, tier, verif_seed, repo, nlanes, replay=None, runs=None, wall_cap
             "determinism": {"pairs_checked": len(det_pairs), "mismatches": len(det_bad),
                             "how": "same run index executed twice in different worker processes; event-log digests compared"},
             "truncated_by_wall_cap": bool(state["truncated"]),
+            "optimised_interpreter_pass": opt_pass,
             "known_findings_reproduced": agg["known"],
             "real_components": prop.REAL,
             "stubbed_components": prop.STUBBED,
